@@ -30,7 +30,7 @@ def extra_obligations(index, tier):
                 "make_macro(self.identifier,self.args,self.value)" in "".join(ast.unparse(index.func("codebasin.preprocessor:DefineNode.evaluate_for_platform").node).split()),
                 "", key, "pattern"))
     out.append(("-DNAME without a value defines NAME as 1", "NumericalConstant('Unknown',None,False,'1')" in s, "", key, "pattern"))
-    out.append(("-DNAME=value takes everything after the first = as the replacement", "parser.match_value(Operator,'=')" in s and "expansion=parser.tokens[parser.pos:]" in s, "", key, "pattern"))
+    out.append(("-DNAME=value takes everything after the first = as the replacement", "string.partition('=')" in s and "expansion=parser.tokens[parser.pos:]" in s, "", key, "pattern"))
     e = "".join(ast.unparse(index.func("codebasin.preprocessor:MacroExpander.overflow_check").node).split())
     out.append(("expansion has a depth backstop (termination)", "raiseMacroExpandOverflow" in e or "MacroExpandOverflow" in e, "",
                 "codebasin.preprocessor:MacroExpander.overflow_check", "pattern"))
